@@ -37,3 +37,9 @@ package ringqp
 //@   nilable
 //@   havoc p
 //@   ensures implies(isnil(err), n == announced(p))
+
+//@ afunc Ring.NewRNSScalar
+//@   trusted opaque at the abstract level: a fresh scalar
+
+//@ afunc Ring.NewRNSScalarFromUInt64
+//@   trusted opaque at the abstract level: a fresh scalar
